@@ -1245,6 +1245,19 @@ def r03_1_abstract(ctx):
                 'own-class attempt %s under not is_abstract(%s)' % (norm(c)[:50], et), f.key('own-class-under-not-abstract'),
                 f.loc(c), 'a class is tried as a candidate without excluding abstract classes '
                 '(guards: %s)' % f.guard_texts(c))
+    # who may call the own-class judgement: nobody else (a shortcut from recognize() for a node tagged with exactly the expected
+    # class went around the abstract gate and the descent into subclasses)
+    for fi in P.yatiml_functions():
+        if fi.key == f.fi.key or not fi.module.name.startswith('yatiml'):
+            continue
+        h = fn_of(fi)
+        for c in h.calls('__recognize_user_class'):
+            if not h.live(c) or call_name(c) != '__recognize_user_class':
+                continue
+            ok = len(c.args) == 2 and h.has_guard(c, 'is_abstract(%s)' % norm(c.args[1]), False)
+            r.check(ok, '%s judges a class itself only under not is_abstract' % fi.name, h.key('own-class-under-not-abstract'), h.loc(c),
+                    '%s calls __recognize_user_class(%s) without going through the abstract-class gate of __recognize_user_classes: '
+                    'an abstract class can be recognised (and instantiated)' % (fi.key, ', '.join(norm(a) for a in c.args)))
     g = fn(P, 'yatiml.util:is_abstract')
     p = g.fi.params[0]
     from ..dtable import truth_table, Unsupported
@@ -2000,8 +2013,35 @@ def r04_7_strip_before_construct(ctx, rid='R04.7'):
             r.check(not extra, 'the only condition on stripping is "key is not a constructor parameter"', g.key('strip-condition'),
                     g.loc(c), 'stripping of an extra attribute is additionally conditional on %s: tags below such values survive'
                     % extra)
-    # no normal exit of the strip step bypasses the loop over the pairs
+    # every pair is looked at: inside the loop, neither the "key is a string" test nor the stripping stands under a condition
+    # about anything else (seeded: merge keys `<<` skipped with `continue`, so that everything merged in escaped the stripping)
     loops = [l for l in g.walk() if isinstance(l, ast.For) and norm(l.iter) == '%s.value' % gnode]
+    for l in loops:
+        kv = g.alpha.text(l.target.elts[0]) if isinstance(l.target, ast.Tuple) and l.target.elts else '?'
+        sites = [x for x in ast.walk(l) if isinstance(x, ast.Raise)] + [c for c in g.calls('strip_tags') if any(y is c for y in ast.walk(l))]
+        for x in sites:
+            xn = g.nid(x)
+            foreign = []
+            for b in (g.cfg.guard_nodes(xn) if xn is not None else []):
+                if not any(y is l for y in _ancestors_list(b.ast)):
+                    continue
+                for a in ast.walk(b.ast):
+                    if isinstance(a, (ast.Compare, ast.Call)) and not any(isinstance(p_, (ast.Compare, ast.Call)) and p_ is not a
+                                                                          for p_ in _ancestors_list(a) if any(z is p_ for z in ast.walk(b.ast))):
+                        t = g.alpha.atom(a, True)[0]
+                        if t.startswith('isinstance(%s, ' % kv) and 'ScalarNode' in t:
+                            continue
+                        if t == "%s.tag == 'tag:yaml.org,2002:str'" % kv:
+                            continue
+                        if t.startswith('%s.value in ' % kv):
+                            continue
+                        foreign.append(t)
+            r.check(not foreign, 'inside the pair loop the %s depends only on "key is a string scalar" / "key is a parameter"'
+                    % ('rejection' if isinstance(x, ast.Raise) else 'stripping'), g.key('pair-loop-condition:%s' % (
+                        'raise' if isinstance(x, ast.Raise) else 'strip')), g.loc(x),
+                    'inside the loop over the pairs the %s is conditional on %s: such pairs are neither rejected nor stripped, whatever '
+                    'they carry is constructed' % ('rejection of non-string keys' if isinstance(x, ast.Raise) else 'stripping', foreign))
+    # no normal exit of the strip step bypasses the loop over the pairs
     for rn in g.cfg.returns():
         r.check(bool(loops) and all(g.cfg.dominates(g.nid(l.iter), rn) for l in loops),
                 'every normal exit of __strip_extra_attributes has gone through the loop over the pairs', g.key('early-exit'),
